@@ -5,6 +5,8 @@
        [ev |-> "start" | "end", id]   job id begins / ends (a panicking job has no "end" but a "panic")
        [ev |-> "panic", id]           job id panicked
        [ev |-> "stalehandler", id]    a panic handler that SetPanicHandler had replaced earlier was called
+       [ev |-> "closeret"]            Close() has returned
+       [ev |-> "siblinghandler", id]  the panic handler of ANOTHER pool (alive next to this one, configured differently) was called
        [ev |-> "handler", id]         the panic handler was called (id = the job named in the panic value, 0 = something else)
      quiesced (the run waited for quiescence with the pool left open), accepted / ran at quiescence;
      prealloc (PreAllocWorkerSize argument, 0 = not called).
@@ -25,10 +27,13 @@ Why(r) ==
   ELSE IF Ids(E, "start") \cap Rejected(E) # {} THEN "a rejected job was run"
   ELSE IF \E k \in DOMAIN E : Running(E, k) > r.max THEN "more than workerSizeMaximum jobs executing at one instant"
   ELSE IF Ids(E, "stalehandler") # {} THEN "a panic was reported to a panic handler that had been replaced before the job was submitted"
+  ELSE IF Ids(E, "siblinghandler") # {} THEN "a panic of this pool's job was reported to the panic handler of another pool"
   ELSE IF \E id \in Ids(E, "panic") : CountEv(E, "handler", id) # 1 THEN "a panicking job was not reported exactly once to the panic handler"
   ELSE IF \E id \in Ids(E, "handler") : id \notin Ids(E, "panic") THEN "the panic handler was invoked for something that is not a job's own panic"
   ELSE IF r.quiesced /\ ~(Accepted(E) \subseteq Ids(E, "start")) THEN "an accepted job never ran although the pool was left open"
   ELSE IF ~(Ids(E, "start") \subseteq Accepted(E) \cup Unknown(E)) THEN "a job ran that was never submitted successfully"
+  ELSE IF \E j, k \in DOMAIN E : j < k /\ E[j].ev = "closeret" /\ E[k].ev = "sched" /\ E[k].r \notin {"closed", "unknown"}
+         THEN "a submission made after Close had returned was not refused with ErrWorkerPoolIsClosed"
   ELSE "ok"
 VARIABLES l, nbad
 Init == l = 1 /\ nbad = 0
